@@ -33,6 +33,7 @@ RULE = (
     'variants incl. equal-key type_mappings and a sibling vasprun.run1.xml (first load populates the cache, second must equal a cache-less parse with ITS arguments or raise the same '
     'exception); BFS over histories of {load(v), crash(v,k), garbage(v,g), delete(v)} up to depth 3 (thorough 4); '
     'evaluation = one (fault state, recovery) execution; distinct = distinct directory states'
+    '; the write log includes renames (write-to-temporary-then-rename protocols get their own crash states); LAMMPS variants include atom_style charge with its matching data file x 3 type mappings'
 )
 LEVEL_TEXT = (
     'Exhaustive fault enumeration along the REAL write path: for every crash point of the recorded cache write '
